@@ -198,6 +198,9 @@ def rule_setlen_cap(ctx, cfg, F):
             # (c2) n = W + max(r, 0), r = recv(.., E - W), E established by a dominating justified set_len
             if not why and n_expr[0] == "bin" and n_expr[1] == "Add":
                 for W, M in ((n_expr[2], n_expr[3]), (n_expr[3], n_expr[2])):
+                    if M[0] == "call" and M[1].endswith("::unwrap_or") and len(M[2]) == 2 and M[2][1] == ("const", 0) and M[2][0][0] == "call" and M[2][0][1].endswith("try_from") and M[2][0][2]:
+                        # `usize::try_from(r).unwrap_or(0)` is max(r, 0) for a signed count
+                        M = ("call", "std::cmp::max", (M[2][0][2][0], ("const", 0)))
                     if M[0] == "call" and (M[1] in ("std::cmp::max", "std::cmp::Ord::max") or (M[1].endswith("::max") and "cmp" in M[1])):
                         rcalls = [a for a in M[2] if a[0] == "call" and a[1] in ("libc::recv", "libc::read")]
                         zero = any(a == ("const", 0) for a in M[2])
@@ -208,6 +211,22 @@ def rule_setlen_cap(ctx, cfg, F):
                                 prev = [pb for pb in justified if _same_vec(f, justified[pb][0], V) and f.dominates(pb, b) and justified[pb][1] == E]
                                 if prev:
                                     why = "n = W + max(r,0) with r = recv(.., E - W) and E <= capacity established at %s" % f.loc(prev[-1])
+            # (c2') n = W + usize::try_from(r).unwrap_or(0): the conversion calls are value-transparent for the expression engine, so they are looked up on the operand's chain
+            if not why and n_expr[0] == "bin" and n_expr[1] == "Add":
+                for W, M in ((n_expr[2], n_expr[3]), (n_expr[3], n_expr[2])):
+                    if M[0] == "call" and M[1] in ("libc::recv", "libc::read") and len(M[2]) >= 3:
+                        rlen = M[2][2]
+                        conv = [(b2, t2) for b2, t2 in f.calls() if strip_generics(callee_name(t2)).endswith("::unwrap_or") and len(t2["args"]) == 2 and op_const(t2["args"][1]) == 0 and
+                                any(r.kind == "call" and r.id in ("libc::recv", "libc::read") for r in tr.roots_of_operand(t2["args"][0])) and
+                                any(strip_generics(callee_name(f.term(d[0]))).endswith("try_from") for d in f.defs().get(op_local(t2["args"][0]) or -1, []) if d[1] is None)]
+                        uses_conv = conv and any(r.kind == "call" and r.id in ("libc::recv", "libc::read") for r in tr.roots_of_operand(t["args"][1])) and \
+                            not any(st_["s"] == "assign" and st_["rv"]["r"] == "cast" and any(r.kind == "call" and r.id in ("libc::recv", "libc::read") for r in tr.roots_of_operand(st_["rv"]["a"][0]))
+                                    for b_ in f.live_blocks() for st_ in f.stmts(b_))
+                        if uses_conv and rlen[0] == "bin" and rlen[1] == "Sub" and expr_strip_blocks(rlen[3]) == expr_strip_blocks(W):
+                            E = expr_strip_blocks(rlen[2])
+                            prev = [pb for pb in justified if _same_vec(f, justified[pb][0], V) and f.dominates(pb, b) and justified[pb][1] == E]
+                            if prev:
+                                why = "n = W + try_from(r).unwrap_or(0) with r = recv(.., E - W) and E <= capacity established at %s" % f.loc(prev[-1])
             # (c3) n = W + X where X is 0 or the return value of recv(.., E - W) taken only where it is known to be positive (`match r.cmp(&0)`, `if r > 0`)
             if not why and n_expr[0] == "bin" and n_expr[1] == "Add":
                 for W, X in ((n_expr[2], n_expr[3]), (n_expr[3], n_expr[2])):
@@ -454,6 +473,9 @@ def rule_map_guard(ctx, cfg, F):
                     if f.is_cleanup(tgt) or not (tgt == mb or mb in f.reachable(tgt)):
                         continue
                     rels = [relation_of_label(f, lab) for lab in edge_label(f, s, tgt)]
+                    # (an unsigned length: `length < 1` is `length == 0`, `length >= 1` is `length > 0`)
+                    rels = [(r[0], {"k": "c", "v": 0, "t": "usize"}, ({"eq"} if set(r[2]) == {"lt"} else ({"gt"} if set(r[2]) == {"eq", "gt"} else r[2])))
+                            if r is not None and op_const(r[1]) == 1 and set(r[2]) in ({"lt"}, {"eq", "gt"}) else r for r in rels]
                     rels = [r for r in rels if r is not None and op_const(r[1]) == 0 and expr_strip_blocks(ex.of_operand(r[0])) == L]
                     if rels:
                         relevant = True
